@@ -22,7 +22,7 @@ FORMS = {
     'def': ('def x(): pass', True), 'class': ('class x: pass', True), 'walrus': ('print((x := 1))', True),
     'tuple': ('(x, _o) = 1, 2', True), 'match': ('match p:\n    case x: pass', True), 'match-as': ('match p:\n    case str() as x: pass', True),
     'match-star': ('match p:\n    case [_o, *x]: pass', True), 'match-rest': ('match p:\n    case {1: _o, **x}: pass', True),
-    'type-alias': ('type x = int', True),
+    'type-alias': ('type x = int', True), 'ann-parenthesised': ('(x): int', False), 'ann-parenthesised-value': ('(x): int = 1', True),
     'try-star': ('try: pass\nexcept* E as x: pass', False), 'comprehension': ('print([0 for _o in [] if (x := 1)])', True),
 }
 
@@ -63,7 +63,7 @@ def render(chain, module_binds, leaf_lambda):
         if i + 1 < len(chain):
             level(i + 1, ind + 1)
         elif leaf_lambda:
-            ln = emit(ind + 1, 'lam = lambda q: use(x)')
+            ln = emit(ind + 1, 'lam = lambda%s: use(x)' % ('' if leaf_lambda == 'no-parameter' else ' q'))
             reads[ln] = ('lambda', sid)
             headers[('lambda', ln)] = ('lambda', sid)
         reads[emit(ind + 1, 'use(x)')] = sid
@@ -192,11 +192,28 @@ def check_module(text, chain, reads, binds, headers, path):
               '' if bad is None else ' [line %d: %s; compiler scope %r; supp bindings %r]\n%s' % (bad[0], bad[1], bad[2], bad[3], text)),
           path=path)
     core.RUN.concretise = None
+    if core.RUN.prop == 'C01':
+        # visibility (C01): a read inside a function that the compiler resolves to the module sees the module's binding of line 1
+        lost = None
+        for ln, sid in sorted(reads.items(), key=lambda kv: kv[0]):
+            if tkinds.get(sid) == 'function' and owner.get(sid) == 0 and binds.get(1) == 0:
+                got = view.get(ln)
+                if not got or all(d[0] != 1 for d in got):
+                    lost = (ln, got)
+                    break
+        if lost:
+            core.RUN.concretise = lambda model, ob, text=text, ln=lost[0]: {'input': text, 'script': REPLAY % {
+                'repo': core.REPO, 'text': text, 'line': ln,
+                'verdict': 'REPRODUCED: the compiler resolves x there to the module, whose binding x = 0 of line 1 is not among the bindings supp reports'}}
+        prove('module-binding-visible-where-the-compiler-resolves-to-the-module', lost is None,
+              clause='a read in a function that the compiler resolves to the module sees the module-level binding%s' % (
+                  '' if lost is None else ' [line %d: supp bindings %r]\n%s' % (lost[0], lost[1], text)), path=path)
+        core.RUN.concretise = None
 
 
-@harness(['C05'], 'supp.nast.extract_scope + Flow.names_at [whole modules against the compiler\'s symbol tables]',
+@harness(['C05', 'C01'], 'supp.nast.extract_scope + Flow.names_at [whole modules against the compiler\'s symbol tables]',
          bounded='every module  [x = 0]? ; use(x) ; S1 ; use(x)  where S1 is a chain of up to 3 nested def / class scopes (optionally ending in a '
-                 'lambda), each level with one of {nothing, x = .., global x, global x + binding, nonlocal x, nonlocal x + binding} and a read '
+                 'lambda with or without a parameter, in a def or a class body), each level with one of {nothing, x = .., global x, global x + binding, nonlocal x, nonlocal x + binding} and a read '
                  'of x before the binding, after it and after the nested scope; only modules the compiler accepts')
 def scopes_against_symtable(run):
     """BOUNDED stand-in: for every read of x, every binding supp associates with it belongs to the scope the compiler's symbol table resolves x
@@ -208,7 +225,8 @@ def scopes_against_symtable(run):
             for kinds in itertools.product(KINDS, repeat=depth):
                 for opts in itertools.product(OPTS, repeat=depth):
                     for module_binds in (False, True):
-                        for leaf_lambda in ((False, True) if kinds[-1] == 'def' else (False,)):
+                        # the innermost scope may end in a lambda, with or without a parameter, in a def and in a class body alike
+                        for leaf_lambda in ((False, 'parameter', 'no-parameter') if depth < 3 or kinds[-1] == 'def' else (False,)):
                             chain = list(zip(kinds, opts))
                             text, reads, binds, headers = render(chain, module_binds, leaf_lambda)
                             try:
@@ -222,7 +240,7 @@ def scopes_against_symtable(run):
     core.explore(lambda: None, lambda p, out: go(p))
 
 
-@harness(['C05'], 'supp.nast.extract_scope + Flow.names_at [every statement that makes a name local, against the compiler\'s symbol tables]',
+@harness(['C05', 'C01'], 'supp.nast.extract_scope + Flow.names_at [every statement that makes a name local, against the compiler\'s symbol tables]',
          bounded='modules  [x = 0]? ; use(x) ; S1 ; use(x)  with S1 a chain of 1-2 nested def / class scopes where one level holds one of 21 '
                  'binding statements for x (augmented assignment, bare and valued annotation, del, for, with, except, except*, imports, def, '
                  'class, walrus, tuple target, match captures, walrus in a comprehension) and the other level one of {nothing, x = .., global x}')
